@@ -199,6 +199,7 @@ Rule(e) ==
       [] e.op = "sum" -> PostIs1(e, FoldLeft(LAMBDA acc, k: ZAdd(acc, S(e, k)), ZZero, [k \in 1..Len(e.src) |-> k]))
       [] e.op = "product" -> PostIs1(e, FoldLeft(LAMBDA acc, k: ZMul(acc, S(e, k)), ZOne, [k \in 1..Len(e.src) |-> k]))
       [] e.op = "cost_table" -> CostTableOK(e.bal, e.unbal)
+      [] e.op = "cost_sparse" -> CostSparseOK(e.bal, e.unbal)
       [] e.op = "obs" ->
             LET x == S(e, 1)  y == S(e, 2)  c == ZCmp(x, y) IN
             /\ e.ret.b = (c = 0) /\ e.ret.ne = (c # 0)
